@@ -4,6 +4,7 @@ CONSTANTS
   RuleIds = {"", "r0", "r1", "r2", "r3"}
   Versions = {"1.0", "2.0"}
   ModeOf <- GModeOf
+  RulesKeyedOnIdOnly = FALSE
   IdsIdentifyContent = FALSE
   InitScenarios = {"fresh"}
   InitDocs = {}
